@@ -1,5 +1,180 @@
-//! C06 harness (stub: not implemented yet).
+//! C06 — rejected collaborative-object changes leave no trace in the state.
+//!
+//! Case: `<changes> <tips> ord=<ranks>` (syntax in `../c05/src/cobworld.rs` / `Driver/C05.lean`). The
+//! history — valid changes mixed with multi-action changes whose later action the issue type rejects
+//! (invalid title, missing comment, unauthorized action; also single bad actions) at every position of
+//! the DAG — is stored as real change commits (history injector: `change::Storage::store` with explicit
+//! tips and arbitrary action JSON, as a remote peer's changes would arrive) and evaluated by the real
+//! `ChangeGraph::evaluate` + `Issue::apply`. Then the *surviving* sub-history is evaluated on its own:
+//! survivors are closed under parents, so it is loaded simply through the tips of the pruned history.
+//!
+//! Oracle (the property statement on what the real code did): (1) exactly the changes the type rejects
+//! and everything depending on them are dropped from the history; (2) the object (full JSON) and the
+//! history of the first evaluation equal those of the evaluation of the surviving history alone.
+
+#[path = "../../c05/src/cobworld.rs"]
+mod cobworld;
+
+use std::collections::BTreeSet;
+
+use cobworld::*;
+use verif_common::*;
+
+fn run_case(w: &mut World, input: &str) -> (String, Outcome) {
+    let toks: Vec<&str> = input.split(' ').collect();
+    let bad = |i: &str| (i.to_string(), Outcome::new("bad-case").trivial().tag("bad-case"));
+    if toks.len() < 2 || toks.len() > 3 {
+        return bad(input);
+    }
+    let Some(chs) = parse_changes(toks[0]) else { return bad(input) };
+    let Some(tips) = parse_refs(toks[1], ',') else { return bad(input) };
+    if tips.iter().any(|t| matches!(t, Some(i) if *i >= chs.len())) {
+        return bad(input);
+    }
+    w.used += 1;
+    let b = match build(w, &chs) {
+        Ok(b) => b,
+        Err(e) => return (input.to_string(), Outcome::new(format!("store-failed:{e}")).trivial()),
+    };
+    let ord = format!("ord={}", b.ord.iter().map(|x| x.to_string()).collect::<Vec<_>>().join(","));
+    let canon = format!("{} {} {}", toks[0], toks[1], ord);
+    let mut o = Outcome::new("");
+    let full = eval_issue(w, &b, &tips);
+    match full {
+        Ok(Some(v)) => {
+            let tips2: Vec<Option<usize>> = v.tips.iter().map(|t| Some(*t)).collect();
+            let (txt2, json2) = match eval_issue(w, &b, &tips2) {
+                Ok(Some(v2)) => (v2.text, v2.json),
+                Ok(None) => ("none".into(), String::new()),
+                Err(e) => (e, String::new()),
+            };
+            if txt2 != v.text || json2 != v.json {
+                o.violations.push((
+                    "rejected-change-left-trace".into(),
+                    format!("whole history: {} {} / surviving history alone: {} {}", v.text, v.json, txt2, json2),
+                ));
+            }
+            // (1) which changes must be dropped, from the case text: rejected ones and their descendants
+            let reach = closure(&chs, &tips);
+            let mut dropped: BTreeSet<usize> = BTreeSet::new();
+            for i in 0..chs.len() {
+                let dangling = chs[i].parents.contains(&None);
+                if reach.contains(&i) && (!accepted(&chs, i) || chs[i].parents.iter().flatten().any(|p| dropped.contains(p))) && !dangling {
+                    dropped.insert(i);
+                }
+            }
+            let has_dangling = chs.iter().any(|c| c.parents.contains(&None));
+            if !has_dangling {
+                let expect: BTreeSet<usize> = reach.iter().copied().filter(|i| !dropped.contains(i)).collect();
+                if v.survivors != expect {
+                    let class = if v.survivors.iter().any(|i| dropped.contains(i)) { "rejected-change-not-dropped" } else { "valid-change-dropped" };
+                    o.violations.push((class.into(), format!("surviving {:?}, expected {:?}", v.survivors, expect)));
+                }
+            } else {
+                o.tags.push("unloadable-parent".into());
+            }
+            let rejected: Vec<usize> = (1..chs.len()).filter(|i| reach.contains(i) && !accepted(&chs, *i)).collect();
+            for i in &rejected {
+                o.tags.push(format!("rejected-{}", chs[*i].kind));
+                let pos = if chs.iter().any(|c| c.parents.contains(&Some(*i))) {
+                    if chs[*i].parents == vec![Some(0)] { "pos-below-root" } else { "pos-interior" }
+                } else {
+                    "pos-tip"
+                };
+                o.tags.push(pos.into());
+                if chs[*i].parents.len() > 1 {
+                    o.tags.push("pos-merge".into());
+                }
+            }
+            o.tags.push(if rejected.is_empty() { "no-rejection" } else if dropped.len() > rejected.len() { "rejection-with-dependents" } else { "rejection-leaf-only" }.into());
+            o.nontrivial = !rejected.is_empty() && v.survivors.len() >= 2;
+            o.output = format!("{}=>{}", v.text, txt2);
+        }
+        Ok(None) => {
+            o.output = "none=>-".into();
+            o.nontrivial = false;
+            o.tags.push("res-none".into());
+        }
+        Err(e) => {
+            o.output = format!("{e}=>-");
+            o.nontrivial = false;
+            o.tags.push("res-error".into());
+        }
+    }
+    (canon, o)
+}
+
+fn show_tips(t: &[usize]) -> String {
+    if t.is_empty() { "-".into() } else { t.iter().map(|x| x.to_string()).collect::<Vec<_>>().join(",") }
+}
+
+/// A valid base history with one rejected kind planted at position `pos`.
+fn planted(rng: &mut Rng, n: usize, pos: usize, kind: &str) -> String {
+    let mut chs = gen_changes(rng, n, 0, false);
+    let root_actor = chs[0].actor;
+    let c = &mut chs[pos];
+    c.kind = kind.to_string();
+    match kind {
+        "ba" => {
+            if c.actor == 0 {
+                c.actor = 1 + rng.below(N_ACTORS as u64 - 1) as usize
+            }
+        }
+        "bl" => c.actor = 0,
+        "bt" => {
+            if rng.chance(3, 4) {
+                c.actor = root_actor
+            }
+        }
+        _ => {}
+    }
+    format!("{} {}", show_changes(&chs), show_tips(&heads(&chs)))
+}
+
 fn main() {
-    eprintln!("C06: harness not implemented");
-    std::process::exit(3);
+    let mut ctx = Ctx::from_args("C06");
+    let mut w = World::new();
+    let (inputs, is_replay) = ctx.fixed_inputs();
+    for i in inputs {
+        let (canon, o) = run_case(&mut w, &i);
+        ctx.count("corpus-or-replay");
+        ctx.record(&canon, o);
+    }
+    if !is_replay {
+        let mut rng = ctx.rng();
+        let mut inputs: Vec<String> = vec![];
+        // every rejected kind at every position of small histories
+        let rounds = ctx.size(1, 12);
+        for _ in 0..rounds {
+            for n in [2usize, 4, 6] {
+                for pos in 1..=n {
+                    for kind in KINDS_BAD {
+                        inputs.push(planted(&mut rng, n, pos, kind));
+                    }
+                }
+            }
+        }
+        // random mixes, several rejected changes per history
+        for _ in 0..ctx.size(130, 2500) {
+            let n = rng.range(2, ctx.size(9, 12)) as usize;
+            let dangling = rng.chance(1, 10);
+            let chs = gen_changes(&mut rng, n, 30, dangling);
+            inputs.push(format!("{} {}", show_changes(&chs), show_tips(&heads(&chs))));
+        }
+        for input in inputs {
+            if w.used % 60 == 59 {
+                w = World::new();
+            }
+            let (canon, o) = run_case(&mut w, &input);
+            ctx.record(&canon, o);
+        }
+    }
+    ctx.finish(
+        "issue histories stored as real change commits: every rejected kind (invalid second title, redact of a missing comment \
+         after a comment, unauthorized assign after a comment, label then invalid title, empty comment, single invalid title) \
+         planted at every position of random valid histories of 2/4/6 changes, plus random mixes (2-9, thorough 2-12 changes, ~30% \
+         rejected, colliding timestamps, merges); whole-history evaluation vs evaluation of the surviving sub-history; \
+         non-trivial = at least one reachable rejected change and >=2 survivors; distinct by input text",
+        false,
+    );
 }
